@@ -91,7 +91,7 @@ CHECKS = {
 
 # later additions to the level texts (kept apart so that the table above stays readable)
 ADDENDA = {
-    "C01": " Members whose addresses travel as 16-byte IPv4 (addresses compared as addresses).",
+    "C01": " Members whose addresses travel as 16-byte IPv4 (addresses compared as addresses); an IPv6 address embedding the member's IPv4 one as the other address; port-less claims on a node that binds one port and advertises another.",
     "C02": " Accusations that arrive while the node has nobody to gossip to (fresh start, or every peer dead for longer than GossipToTheDeadTime): the refutation must survive the idle gossip rounds and reach the first peer that becomes known. An accusation behind a backlog of 5000 untransmitted broadcasts.",
     "C03": " Scenario dimensions also include IPv6 addresses, a transport implementing only the older Transport interface, GossipNodes 1/6. Up to 32 members now and then; real-time part: the library ChannelEventDelegate with a stalling consumer.",
     "C04": " Members on IPv6 addresses; delegates whose LocalState takes 0.3-2.5 s. A 72-member cluster; metadata changes announced seconds later.",
